@@ -158,41 +158,69 @@ Proof. unfold bind. intros H1 H2. destruct (m ps) as [a ps1| | |]; try exact H1.
 Lemma cb_lec {A} n N (m : Prog.M A) ps : cb n m -> calls ps + n <= N -> lec N (m ps).
 Proof. intros H Hn. specialize (H ps). unfold lec. destruct (m ps); try lia. Qed.
 
-Lemma pr_dyn_bound_pos (af : fw) : 1 <= pr_dyn_bound L af.
-Proof. unfold pr_dyn_bound. lia. Qed.
+(* one fuel unit / at most one call per complete extension *)
+Definition co_count (af : fw) : nat := length (all_exts CO (af_of af)).
 
 Lemma pr_ds_query_calls thr fuel (s : dsolver L) ps os l id :
   vreach thr KPr s ps os -> get_argument L leqb (run_ops fresh os) l = Some id ->
-  lec (calls ps + pr_dyn_bound L (run_ops fresh os) - 1) (pr_ds_query oracle L leqb fuel s l ps).
+  match pr_ds_query oracle L leqb fuel s l ps with
+  | Done _ ps' | Abort ps' | Panic ps' => calls ps' <= calls ps + co_count (run_ops fresh os)
+  | OutOfFuel ps' => calls ps' <= calls ps + co_count (run_ops fresh os) /\ fuel <= co_count (run_ops fresh os)
+  end.
 Proof.
-  intros Hv Hl. pose proof (pr_dyn_bound_pos (run_ops fresh os)) as Hpos.
-  unfold pr_ds_query. destruct (is_skep L leqb (s_buf L s) l) as [[b|] [X|]].
-  1:{ unfold ret, lec. lia. }
-  all: apply lec_bind; [apply (cb_lec 0); [apply cb_update_encoding|lia]|]; intros [af buf] ps1 Hue;
-    pose proof (cb_update_encoding L leqb (s_af L s) (s_buf L s) ps) as Hc1; rewrite Hue in Hc1;
-    destruct (query_ready_pr L leqb leqb_spec oracle thr s ps os af buf ps1 Hv Hue) as (e & He & Hrd & Hsem & Hlv & Hbd & Haf & _);
-    rewrite He;
-    apply lec_bind; [apply (cb_lec 0); [apply cb_n_vars|lia]|]; intros n ps2 E2;
-    assert (Hps2 : ps2 = st_nvars ps1) by (unfold n_vars in E2; apply Done_inj in E2; destruct E2 as [_ <-]; reflexivity);
-    apply n_vars_sess in E2; destruct E2 as [-> Hs2];
-    assert (Hc2 : calls ps2 = calls ps1) by (subst ps2; reflexivity);
-    apply lec_bind; [apply (cb_lec 0); [apply cb_opt_m|lia]|]; intros id' ps3 E3;
-    apply opt_m_Done in E3; destruct E3 as [Hid ->];
-    assert (id' = id) by (rewrite Haf in Hid; congruence); subst id';
-    pose proof (pr_search_out L leqb leqb_spec oracle Hvalid fuel af e ps1 ps2 l id os Hrd Hsem Hlv Hbd Haf Hid Hs2) as G;
-    rewrite <- Haf;
-    apply lec_bind;
-    [ destruct (pr_loop oracle L fuel af e id _ true None _ ps2) as [[[[[k result] acc_b] ref_b] ext] ps4| | |];
-      unfold lec; [destruct G as (_ & G & _)| | |destruct G as [_ G]]; lia
-    | intros [[[[k result] acc_b] ref_b] ext] ps4 E4; rewrite E4 in G; destruct G as (_ & G & _);
-      apply (cb_lec 0); [repeat cb_step|lia] ].
+  intros Hv Hl.
+  assert (G : lec (calls ps + co_count (run_ops fresh os)) (pr_ds_query oracle L leqb fuel s l ps) /\
+              forall ps', pr_ds_query oracle L leqb fuel s l ps = OutOfFuel ps' -> fuel <= co_count (run_ops fresh os)).
+  2:{ destruct G as [G1 G2]. unfold lec in G1. destruct (pr_ds_query oracle L leqb fuel s l ps); try exact G1.
+      split; [exact G1|]. eapply G2. reflexivity. }
+  assert (Hsk : std_kind KPr) by (unfold std_kind; tauto).
+  pose proof (std_kind_reach L leqb _ _ _ (vreach_reach L leqb _ _ _ _ _ _ Hv) Hsk) as Hstd.
+  split.
+  - unfold pr_ds_query. destruct (is_skep L leqb (s_buf L s) l) as [[b|] [X|]].
+    1:{ unfold ret, lec. lia. }
+    all: apply lec_bind; [apply (cb_lec 0); [apply cb_update_encoding|lia]|]; intros [af buf] ps1 Hue;
+      pose proof (cb_update_encoding L leqb (s_af L s) (s_buf L s) ps) as Hc1; rewrite Hue in Hc1;
+      destruct (query_ready_pr L leqb leqb_spec oracle thr s ps os af buf ps1 Hv Hue) as (e & He & Hrd & Hsem & Hlv & Hbd & Haf & _);
+      rewrite He;
+      apply lec_bind; [apply (cb_lec 0); [apply cb_n_vars|lia]|]; intros n ps2 E2;
+      assert (Hps2 : ps2 = st_nvars ps1) by (unfold n_vars in E2; apply Done_inj in E2; destruct E2 as [_ <-]; reflexivity);
+      apply n_vars_sess in E2; destruct E2 as [-> Hs2];
+      assert (Hc2 : calls ps2 = calls ps1) by (subst ps2; reflexivity);
+      apply lec_bind; [apply (cb_lec 0); [apply cb_opt_m|lia]|]; intros id' ps3 E3;
+      apply opt_m_Done in E3; destruct E3 as [Hid ->];
+      assert (id' = id) by (rewrite Haf in Hid; congruence); subst id';
+      pose proof (pr_search_tight L leqb leqb_spec oracle Hvalid fuel af e ps1 ps2 l id os Hrd Hsem Hlv Hbd Haf Hid Hs2) as G;
+      rewrite <- Haf; unfold co_count;
+      apply lec_bind;
+      [ destruct (pr_loop oracle L fuel af e id _ true None _ ps2) as [[[[[k result] acc_b] ref_b] ext] ps4| | |];
+        unfold lec; lia
+      | intros [[[[k result] acc_b] ref_b] ext] ps4 E4; rewrite E4 in G;
+        apply (cb_lec 0); [repeat cb_step|lia] ].
+  - intros ps' E. unfold pr_ds_query in E. destruct (is_skep L leqb (s_buf L s) l) as [[b|] [X|]]; [discriminate E| | |].
+    all: apply bind_OOF in E; destruct E as [E|([af buf] & ps1 & Hue & E)];
+      [exfalso; exact (nof_not_OOF _ _ _ (nof_update_encoding L leqb _ _ Hstd) E)|];
+      destruct (query_ready_pr L leqb leqb_spec oracle thr s ps os af buf ps1 Hv Hue) as (e & He & Hrd & Hsem & Hlv & Hbd & Haf & _);
+      rewrite He in E;
+      apply bind_OOF in E; destruct E as [E|(n & ps2 & E2 & E)]; [discriminate E|];
+      apply n_vars_sess in E2; destruct E2 as [-> Hs2];
+      apply bind_OOF in E; destruct E as [E|(id' & ps3 & E3 & E)]; [exfalso; exact (nof_not_OOF _ _ _ (nof_opt_m _) E)|];
+      apply opt_m_Done in E3; destruct E3 as [Hid ->];
+      assert (id' = id) by (rewrite Haf in Hid; congruence); subst id';
+      pose proof (pr_search_tight L leqb leqb_spec oracle Hvalid fuel af e ps1 ps2 l id os Hrd Hsem Hlv Hbd Haf Hid Hs2) as G;
+      apply bind_OOF in E; destruct E as [E|([[[[k result] acc_b] ref_b] X'] & ps4 & E4 & E)];
+      [rewrite E in G; unfold co_count; rewrite <- Haf; exact (proj1 G)|];
+      exfalso; refine (nof_not_OOF _ _ _ _ E);
+      (apply nof_bind; [apply nof_opt_m|]); intros acc; (apply nof_bind; [apply nof_opt_m|]); intros refused;
+      (apply nof_bind; [apply nof_add_clause|]); intros _; apply nof_ret.
 Qed.
 
-(* THE CALL BOUND of a preferred query, however it ends *)
+(* THE CALL BOUND of a preferred query, however it ends: at most one SAT call per complete extension of
+   the current framework; and it runs out of fuel only if the fuel is at most that number *)
 Theorem pr_query_calls thr (s : dsolver L) ps os fuel cert l id :
   vreach thr KPr s ps os -> get_argument L leqb (run_ops fresh os) l = Some id ->
   match dyn_query oracle L leqb thr fuel s QDS cert l ps with
-  | Done _ ps' | Abort ps' | OutOfFuel ps' => calls ps' + 1 <= calls ps + pr_dyn_bound L (run_ops fresh os)
+  | Done _ ps' | Abort ps' => calls ps' <= calls ps + co_count (run_ops fresh os)
+  | OutOfFuel ps' => calls ps' <= calls ps + co_count (run_ops fresh os) /\ fuel <= co_count (run_ops fresh os)
   | Panic _ => False
   end.
 Proof.
@@ -200,11 +228,9 @@ Proof.
   pose proof (reach_frame_inv L leqb _ _ _ Hr) as [Hkind _ _ _].
   pose proof (std_query_never_panics L leqb leqb_spec KPr s os oracle thr fuel QDS cert l id ps Hr Hl
                 (or_intror (or_intror (conj eq_refl eq_refl)))) as Hnp.
-  pose proof (pr_dyn_bound_pos (run_ops fresh os)) as Hpos.
-  assert (G : lec (calls ps + pr_dyn_bound L (run_ops fresh os) - 1) (dyn_query oracle L leqb thr fuel s QDS cert l ps)).
-  { unfold dyn_query. rewrite Hkind. apply lec_bind; [apply (pr_ds_query_calls thr fuel s ps os l id Hv Hl)|].
-    intros r ps1 E. pose proof (pr_ds_query_calls thr fuel s ps os l id Hv Hl) as G. rewrite E in G. exact G. }
-  unfold lec in G. destruct (dyn_query oracle L leqb thr fuel s QDS cert l ps); try lia; try exact Hnp.
+  pose proof (pr_ds_query_calls thr fuel s ps os l id Hv Hl) as G.
+  unfold dyn_query in *. rewrite Hkind in *. unfold bind in *.
+  destruct (pr_ds_query oracle L leqb fuel s l ps) as [r ps1| | |]; cbn [ret] in *; auto.
 Qed.
 
 (* no call at all on a cache hit: same program state, same solver state *)
